@@ -6,8 +6,9 @@ _KERNELS = ['mulmm', 'mulTm', 'mulmT', 'mulTT', 'T1', 'T2', 'eye1', 'eye2', 'tri
 SPEC = dict(
     harness=['h_linalg_kern.c'],
     # the default (double) build runs the full harness; the other two real widths run a compact type-generic companion
-    configs=lambda tier: [dict(name='f64'), dict(name='f64-clang', libcc='clang', nworkers=4, of=8), dict(name='f64-o2', libflavour='san-o2', libdrop=['-fno-strict-aliasing'], nworkers=4, of=8), dict(name='f32', real=4, harness=['h_linalg_kern_w.c']), dict(name='f80', real=16, harness=['h_linalg_kern_w.c'])],
-    parallel_configs=5,
+    configs=lambda tier: [dict(name='f64'), dict(name='f64-openmp', cflags=['-fopenmp'], nworkers=2, of=4),  # the library as setup.py / python/CMakeLists.txt build it with LIBA_OPENMP: _OPENMP defined, pragmas live (seeded change C09-K)
+                          dict(name='f64-clang', libcc='clang', nworkers=4, of=8), dict(name='f64-o2', libflavour='san-o2', libdrop=['-fno-strict-aliasing'], nworkers=4, of=8), dict(name='f32', real=4, harness=['h_linalg_kern_w.c']), dict(name='f80', real=16, harness=['h_linalg_kern_w.c'])],
+    parallel_configs=6,
     level='exploration',
     rule='every call of one of the 19 kernels (a_real_mulmm/mulTm/mulmT/mulTT, T1, T2, eye1/2, tri1/2, diag/diag1/diag2, triL/triL1/triL2, '
          'triU/triU1/triU2) is one evaluation: the whole result array is compared BITWISE with an index-by-definition reference (int64 '
